@@ -42,7 +42,9 @@ theorem loop_step_exists {P : Params} (A : Assembler) (script : List Item) {s : 
     simp only [step, stepParse, hpc, if_true]
     split
     · split
-      · split <;> rfl
+      · split
+        · rfl
+        · split <;> rfl
       · rfl
     · rfl
   | send m =>
@@ -174,6 +176,7 @@ theorem phi_loop_step {P : Params} {A : Assembler} {script : List Item} {s s' : 
       · next x rest d hpend hitem =>
         split at hs
         · injection hs with hs; subst hs
+          strip_gap
           by_cases hr : rest = []
           · subst hr; simp [phi, hpc, hpend]
           · simp only [phi, hpc, hpend, if_neg hr, List.length_cons]; omega
